@@ -49,6 +49,23 @@ CHECKS = {
         "DESIGN.md 6 C04",
         TRUST,
     ),
+    "C12": (
+        "TLC exhaustive check of MC_Identities (div curl = 0, stream-function identities, update = omega + p curl, penalised = "
+        "forcing of difference) on every unit impulse + dense fields, negative control; compositions replayed through the real "
+        "generators (exact-rational equality, compiled bit-exact) with the identities evaluated on the code's own outputs; "
+        "3-D simulator divergence norm",
+        "Exhaustive over a basis of the (linear) input space at every interior cell, in the model and through the code.",
+        "DESIGN.md 6 C12",
+        TRUST,
+    ),
+    "C20": (
+        "TLC check of MC_TimeSteppers (SSP-RK3 stage machine == I + A + A^2/2 + A^3/6 on all unit impulses x generic frozen "
+        "velocities; half-third-stage variant refuted) + replay of the time-step actions of MC_Kernels into the real kernels "
+        "(exact-rational equality) + identification of the polynomial the real SSP-RK3 kernel realises",
+        "Model checking of the scheme algebra + conformance of every time-step kernel to field + step*flux / the nominal polynomial.",
+        "DESIGN.md 6 C20",
+        TRUST,
+    ),
 }
 
 NOT_YET = "check not built yet in this round (see DESIGN.md 11 for the build order)"
